@@ -67,3 +67,53 @@ func VH_C16_reorder_spans_Q() {
 	}
 	vAssert("C16.reorder.no_span_leaves_the_extent_of_the_line", inside)
 }
+
+// C16 (ToText's glue adjustment): the advance of every space of an adjusted line changes by the
+// line's ratio times the space's stretch (ratio > 0) or shrink (ratio < 0), rounded to the nearest
+// font unit - so the rounding of k spaces moves the line end by at most k/2 units in either
+// direction.  "a b c d" (three spaces, followed by a word too long for the line) in a box between
+// its shrunk and its stretched width (12 box widths x 3 letter advances, concrete enumeration), Justify: the first
+// line ends within 3 * 0.5 units + 1e-6 of the width whenever the breaker reports an adjustment (truncation
+// towards zero, which under-shrinks every space by up to one unit, is excluded by that margin).
+func VH_C16_justify_rounding_Q() {
+	if !vInterp() {
+		return
+	}
+	vStub("!(github.com/tdewolff/canvas/text.Shaper).Shape", vhC16Shape)
+	vStub("!github.com/tdewolff/canvas/text.EmbeddingLevels", vhC16Levels)
+	vStub("!github.com/tdewolff/canvas/text.LookupScript", vhC16Script2)
+	vStub("!(*github.com/tdewolff/font.SFNT).GlyphIndex", vhC16GlyphIndex)
+	vStub("!(*github.com/tdewolff/font.SFNT).GlyphAdvance", vhC16GlyphAdvance)
+	s := "a b c d hhhhhhhhhh" // the last word cannot join the first line: it breaks after d, not at a paragraph end
+	la := []int32{184, 300, 451}[vChoose(0, 2)]
+	vhC16Adv = map[rune]int32{' ': 250, '\n': 0}
+	for _, r := range s {
+		if _, has := vhC16Adv[r]; !has {
+			vhC16Adv[r] = la
+		}
+	}
+	// natural width of the first line in mm (MmPerEm = 0.01): 4 letters and 3 spaces; box widths
+	// from a grid around it (a symbolic width makes the line breaker's search exceed 600 decisions
+	// per path): -1.6 .. +2.7 mm in steps of 0.37
+	nat := 0.01 * float64(4*la+3*250)
+	width := nat + 0.37*float64(vChoose(-4, 7)) - 0.12
+	face := vhC16Face()
+	rt := NewRichText(face)
+	rt.WriteString(s)
+	t := rt.ToText(width, 0, Justify, Top, 0, 0)
+	if len(t.lines) < 2 || len(t.lines[0].spans) == 0 {
+		return
+	}
+	// the first line holds all of "a b c d e f"
+	n := 0
+	end := 0.0
+	for _, sp := range t.lines[0].spans {
+		n += len(sp.Glyphs)
+		end = math.Max(end, sp.X+sp.Width)
+	}
+	if n < 7 {
+		return
+	}
+	adjusted := math.Abs(end-nat) > 1e-9
+	vAssertI("C16.justifyround.adjusted_line_ends_at_the_width_within_the_rounding", !adjusted || math.Abs(end-width) <= 0.01*1.5+1e-6)
+}
